@@ -63,6 +63,11 @@ def cases(ctx):
         ctx.count(f'addr-{ty}-{net}')
         yield Case(f'sw_addr {ty}/{nh(net)} {ver} {hx(prog)}', 'ms', nontrivial=net != 'testnet', tag='addr',
                    spec=lambda ans, exp=exp: (f's:raw ok {sh(exp)}', ans))
+        if rng.random() < 0.3:
+            net2 = rng.choice([n for n in NETS if n != net])
+            exp2 = spec_encode(hrp(net2), ver, prog)
+            yield Case(f'sw_addr {ty}/{nh(net2)} {ver} {hx(prog)}', 'ms', nontrivial=True, tag='addr-other-net',
+                       spec=lambda ans, exp2=exp2: (f's:raw ok {sh(exp2)}', ans))
         for s in (exp, exp.upper()):
             yield Case(f'sw_decode {ty}/{nh(net)} {ver} {sh(s)}', 'ms', nontrivial=net != 'testnet', tag='recreate',
                        spec=lambda ans, prog=prog: (f's:raw ok {hx(prog)}', ans))
@@ -106,6 +111,9 @@ def cases(ctx):
 def ln_ok(ver, prog): return ver != 0 or len(prog) in (20, 32)
 
 
+OBJS = {}
+
+
 def impl(op, a, ctx):
     from bitcoinutils.setup import setup
     from bitcoinutils.keys import P2wpkhAddress, P2wshAddress, P2trAddress
@@ -118,7 +126,7 @@ def impl(op, a, ctx):
     ver = F.nat()
     if op == 'sw_addr':
         prog = F.bytes()
-        o = cls(witness_program=prog.hex())
+        o = OBJS.setdefault((ty, prog), cls(witness_program=prog.hex()))     # re-used across networks
         s = o.to_string()
         # re-created from its own string and from its program: identical program
         if cls(address=s).to_witness_program() != prog.hex() or cls(witness_program=o.to_witness_program()).to_string() != s:
